@@ -231,8 +231,6 @@ fn delta_for_tx(
     };
 
     let mut new_share_balance = pre_tx_status.share_balance;
-    let mut new_all_affiliates_share_balance =
-        pre_tx_status.all_affiliate_share_balance;
     let mut new_acb_total = pre_tx_status.total_acb;
 
     let mut capital_gains: Option<Decimal> = None;
@@ -245,8 +243,6 @@ fn delta_for_tx(
         crate::portfolio::TxActionSpecifics::Buy(buy_specs) => {
             new_share_balance =
                 pre_tx_status.share_balance + buy_specs.shares.into();
-            new_all_affiliates_share_balance =
-                pre_tx_status.all_affiliate_share_balance + buy_specs.shares.into();
             if let Some(old_acb) = pre_tx_status.total_acb {
                 let total_price = total_local_share_value(
                     buy_specs.shares,
@@ -269,7 +265,7 @@ fn delta_for_tx(
                     tx.trade_date, sell_specs.shares, tx.security,
                     pre_tx_status.share_balance)
                 })?;
-            new_all_affiliates_share_balance = GreaterEqualZeroDecimal::try_from(
+            GreaterEqualZeroDecimal::try_from(
                 *pre_tx_status.all_affiliate_share_balance - *sell_specs.shares,
             )
             .map_err(|_| {
@@ -376,8 +372,8 @@ fn delta_for_tx(
             let share_diff = *new_share_balance - *pre_tx_status.share_balance;
             // This erroring would be strange in practice. Only if the share balance
             // was already broken.
-            new_all_affiliates_share_balance = GreaterEqualZeroDecimal::try_from(
-                *new_all_affiliates_share_balance + share_diff,
+            GreaterEqualZeroDecimal::try_from(
+                *pre_tx_status.all_affiliate_share_balance + share_diff,
             )
             .map_err(|_| {
                 format!(
@@ -410,6 +406,13 @@ fn delta_for_tx(
             // though?
         }
     }
+
+    // Derive the all-affiliate balance from the affiliates' own balances, rather
+    // than from the share difference applied above to the running total, so that
+    // decimal rounding can never make the two disagree.
+    let new_all_affiliates_share_balance = ptf_statuses
+        .other_affiliates_share_balance(&tx.affiliate)
+        + new_share_balance;
 
     let new_status = PortfolioSecurityStatus {
         security: pre_tx_status.security.clone(),
